@@ -507,7 +507,9 @@ def work(spec):
     res['execs'] = s.transitions + c['resolve_probes'] + c['wsgi_probes']
     if c['model_vs_fresh_disagreements']:
         res['internal_error'] = 'reference model disagrees with freshly built routers: ' + '; '.join(res['notes'][:2])
-    core.add_sample(res, {'first_op': [list(o) for o in first][:2], 'depth': depth, 'states': s.states, 'new_states_per_level': s.levels})
+    longest = max(s.seen.values(), key=len) if s.seen else ()
+    core.add_sample(res, {'first_op': [list(o) for o in first][:2], 'depth': depth, 'states': s.states, 'new_states_per_level': s.levels,
+                          'example_history_reaching_a_new_state': [list(o) for o in longest]})
     return res
 
 
